@@ -1519,6 +1519,49 @@ func runC01(c *core.Ctx) {
 	c.Affinity(-1) // (the groups below are sharded case by case again)
 	c01ArtifactEnvelopes(c, pool, sps)
 
+	// genuine assertions of alice's that say less about the request they answer than the usual one does (issued unsolicited): whatever the
+	// SP returns of them is what the IdP signed - nothing in the returned subject, conditions or statements comes from unsigned parts
+	c.Group("genuine-assertions-that-name-no-request")
+	for _, v := range []struct {
+		name string
+		f    func(a *samlgen.Assertion)
+	}{{"confirmation-without-InResponseTo", func(a *samlgen.Assertion) { a.Confirmations[0].InResponseTo = nil }},
+		{"confirmation-with-empty-InResponseTo", func(a *samlgen.Assertion) { a.Confirmations[0].InResponseTo = samlgen.S("") }},
+		{"confirmation-without-Recipient", func(a *samlgen.Assertion) { a.Confirmations[0].Recipient = nil }},
+		{"confirmation-without-data", func(a *samlgen.Assertion) { a.Confirmations[0].NoData = true }},
+		{"no-confirmation", func(a *samlgen.Assertion) { a.Confirmations = nil }},
+		{"no-audience-restriction", func(a *samlgen.Assertion) { a.Audiences = nil }}} {
+		av := samlgen.DefaultAssertion()
+		v.f(av)
+		if fp, err := fpOfElement(av.Element()); err == nil {
+			pool.genuineFP[fp] = "alice/" + v.name
+		}
+		for _, lay := range []harness.Layout{{SignAssertion: true}, {SignAssertion: true, Encrypt: true}, {SignResponse: true, SignAssertion: true}} {
+			for _, rirt := range []string{"answers-the-request", "names-no-request"} {
+				if rirt == "names-no-request" && (lay.SignResponse || lay.Encrypt) {
+					continue
+				}
+				resp := samlgen.DefaultResponse()
+				if rirt == "names-no-request" {
+					resp.InResponseTo = nil
+				}
+				in := c01Init{"unsolicited=" + v.name + "/layout=" + lay.String() + "/response-" + rirt, harness.BuildResponse(resp, []*samlgen.Assertion{av}, lay, idp1(), spKey())}
+				for _, op1 := range append([]c01Op{{"unchanged", func(*etree.Element, *c01Pool) bool { return true }}}, ops...) {
+					in, op1 := in, op1
+					key := "unsolicited/" + in.name + "/" + op1.name
+					c.Case(key, func(t *core.T) {
+						s1, ok := apply(in.doc, op1)
+						if !ok {
+							t.Outcome("op-not-applicable")
+							return
+						}
+						evaluate(t, s1, 1, key, c01Trusts[:2], entries)
+					})
+				}
+			}
+		}
+	}
+
 	c.Group("no-signing-key-published")
 	for _, in := range inits {
 		for _, op1 := range append([]c01Op{{"unchanged", func(*etree.Element, *c01Pool) bool { return true }}}, ops...) {
